@@ -154,7 +154,7 @@ func Harness_C17_stack() {
 }
 
 // Harness_C17_writer: a real single writer with auto-compaction on: after every one of N identical transactions the stack is at most 2*log2(N) tables deep.
-// bounds: N = 64 transactions (thorough 256) of 1, 2 or 5 fresh refs each through Stack.Add on the model file system, BlockSize 256 or 4096(default) x Unaligned; real table sizes (no size model); one payload byte symbolic
+// bounds: N = 64 transactions (thorough 1024) of 1, 2 or 5 fresh refs each through Stack.Add on the model file system, BlockSize 256 or 4096(default) x Unaligned; real table sizes (no size model); one payload byte symbolic
 // covers: done
 func Harness_C17_writer() {
 	cfg := Config{BlockSize: []uint32{256, 0}[VerifChoose(2)], Unaligned: VerifChoose(2) == 1}
@@ -166,7 +166,8 @@ func Harness_C17_writer() {
 	}
 	cnt := []int{1, 2, 5}[VerifChoose(3)]
 	payload := VerifU8()
-	maxN := 64 + 192*VerifTier()
+	VerifMaxSteps(4000000000)
+	maxN := 64 + 960*VerifTier()
 	for n := 1; n <= maxN; n++ {
 		err := st.Add(func(w *Writer) error {
 			ui := st.NextUpdateIndex()
